@@ -363,7 +363,7 @@ class Node(object):
             next_class = next_individual.customer_class
             for clss, dist in self.simulation.network.customer_classes[next_individual.customer_class].class_change_time_distributions.items():
                 if dist is not None:
-                    t = dist.sample()
+                    t = dist._sample()
                     if t < next_time:
                         next_time = t
                         next_class = clss
@@ -665,13 +665,13 @@ class Node(object):
         dist = self.simulation.network.customer_classes[ind.customer_class].reneging_time_distributions[self.id_number - 1]
         if dist is None:
             return float("inf")
-        return self.now + dist.sample(t=self.now, ind=ind)
+        return self.now + dist._sample(t=self.now, ind=ind)
 
     def get_service_time(self, ind):
         """
         Returns a service time for the given customer class.
         """
-        return self.simulation.service_times[self.id_number][ind.customer_class].sample(t=self.now, ind=ind)
+        return self.simulation.service_times[self.id_number][ind.customer_class]._sample(t=self.now, ind=ind)
 
     def take_servers_off_duty(self, preemption=False):
         """
